@@ -72,8 +72,11 @@ SCENARIOS = {
     "harv-jl-none": ("harvester", {"num_batches": 2}, "joblib", None),
     "samp-pkl": ("sampler", {"batchsize": 2}, "pickle", "rows"),
     "samp-csv": ("sampler", {"batchsize": 1}, "csv", "rows"),
+    # results that are bools, the very last one False (used by C12)
+    "raw-bool": ("raw", {"batchsize": 2}, None, None),
 }
 
+C10_SCENARIOS = [n_ for n_ in SCENARIOS if n_ != "raw-bool"]
 WORKLOADS = ["sow", "resow", "grow1", "growmulti", "growmissing", "reap"]
 
 
@@ -81,7 +84,14 @@ class Scn:
     def __init__(self, name):
         self.name = name
         self.kind, self.batch, self.engine, self.earlier = SCENARIOS[name]
-        self.f = xfn.make_fn(["a", "b"], kind="num", name="f10")
+        self.rkind = "num"
+        self.combos = COMBOS
+        if name == "raw-bool":
+            self.rkind = "bool"
+            bb = next(b for b in range(5, 200) if not xfn.expected(
+                "bool", dict(a=3, b=b)))
+            self.combos = {"a": [1, 2, 3], "b": [4, bb]}
+        self.f = xfn.make_fn(["a", "b"], kind=self.rkind, name="f10")
         self.nsamples = 3
         ext = {"h5netcdf": ".h5", "joblib": ".dmp", "pickle": ".pkl",
                "csv": ".csv", None: ""}[self.engine]
@@ -130,7 +140,7 @@ class Scn:
             builtins._xv_draw_a = builtins._xv_draw_b = 100
             crop.sow_samples(self.nsamples, verbosity=0)
         else:
-            crop.sow_combos(COMBOS, verbosity=0)
+            crop.sow_combos(self.combos, verbosity=0)
 
     def seed_earlier(self, d):
         far = self.farmer(d)
@@ -189,15 +199,17 @@ class Scn:
 
         if self.kind == "raw":
             nmiss = 0
-            for i, a in enumerate(COMBOS["a"]):
-                for j, b in enumerate(COMBOS["b"]):
+            for i, a in enumerate(self.combos["a"]):
+                for j, b in enumerate(self.combos["b"]):
                     try:
                         v = res[i][j]
                     except Exception:
                         return "wrong:shape"
                     if cmp.leaf_missing(v):
                         nmiss += 1
-                    elif v != xfn.expected("num", dict(a=a, b=b)):
+                    elif v != xfn.expected(self.rkind, dict(a=a, b=b)) or (
+                            self.rkind == "bool" and not isinstance(
+                                v, (bool, __import__("numpy").bool_))):
                         return "wrong:value at a=%r b=%r" % (a, b)
             if len(res) != 3 or any(len(r) != 2 for r in res):
                 return "wrong:shape"
@@ -547,7 +559,7 @@ def run(ctx):
     level = "quick" if tier == "quick" else "thorough"
     if tier == "quick":
         plan = []
-        for name in SCENARIOS:
+        for name in C10_SCENARIOS:
             kind = SCENARIOS[name][0]
             wls = WORKLOADS if name == "raw-bs2" else (
                 ["sow", "grow1", "reap"] if kind != "raw"
@@ -556,7 +568,7 @@ def run(ctx):
     else:
         plan = [(name, wl, level, name in ("raw-nb4", "harv-jl-overlap",
                                            "samp-pkl", "runner"))
-                for name in SCENARIOS for wl in WORKLOADS]
+                for name in C10_SCENARIOS for wl in WORKLOADS]
     ctx.rng.shuffle(plan)
     nops = 0
     p4 = 0
@@ -573,7 +585,7 @@ def run(ctx):
             ctx.sample(s, limit=6)
     # conformance with real SIGKILL
     ntasks = 4 if tier == "quick" else 24
-    names = list(SCENARIOS)
+    names = list(C10_SCENARIOS)
     ctasks = [(names[(ctx.seed + i) % len(names)],
                WORKLOADS[(ctx.seed + i * 5) % len(WORKLOADS)], ctx.seed + i)
               for i in range(ntasks)]
